@@ -43,7 +43,11 @@ TIMEOUT = {"quick": 1500, "thorough": 10800}
 INCRB = ["", "d", "v", "a", "dv", "da", "va", "dva"]
 KINDS = ["diag-real", "diag-complex", "coup-real", "coup-complex"]
 BLOCK_ORDERS = ["".join(p) for p in itertools.permutations("bef")]   # b=rb e=el f=rf
-AMP_LIMIT = 1e6
+AMP_LIMIT = 1e6            # first-order condition number above which a column is refused
+MODAL_FACTOR = 30.0        # x oracles.freq_direct.modal_route_bound (measured worst: 1.5)
+CONDU_LIMIT = 1e8          # cond of the state-space eigenvectors beyond which SolveUnc's
+                           # coupled route is not judged (pyYeti itself warns at 1/eps)
+SU_RELTOL_LIMIT = 1e-6     # ... and columns where that model allows more than this
 NSLICE = {"quick": 8, "thorough": 16}
 NBLOCK = {"quick": 384, "thorough": 9600}       # block systems per run
 NPHYS = {"quick": 192, "thorough": 4800}        # physical (pre_eig) systems per run
@@ -123,6 +127,18 @@ def _gen_block(np, r, i):
     if order_id < 6:
         labels = "".join(c * cnt[c] for c in BLOCK_ORDERS[order_id])
         layout = "contig-" + BLOCK_ORDERS[order_id]
+        if nrb >= 2 and n > nrb and r.random() < 0.35:
+            # blocks stay in order but one rb DOF is moved away: non-contiguous rb set
+            lab = list(labels)
+            q = max(p_ for p_, c in enumerate(lab) if c == "b")
+            lab.pop(q)
+            others = [p_ for p_ in range(len(lab) + 1)
+                      if not ((p_ > 0 and lab[p_ - 1] == "b")
+                              or (p_ < len(lab) and lab[p_] == "b"))]
+            if others:
+                lab.insert(others[int(r.integers(len(others)))], "b")
+                labels = "".join(lab)
+                layout = "split-rb-" + BLOCK_ORDERS[order_id]
     else:
         lab = list("b" * nrb + "e" * nel + "f" * nrf)
         for _ in range(10):
@@ -483,11 +499,18 @@ class Ref:
         M, B, K = s["Mf"], s["Bf"], s["Kf"]
         self.copies = []
         sym = pre_eig
+        dense = (not pre_eig) and not s_is_diag(np, s)
+        blocks = (self.rb, self.el, self.rf)
         for _ in range(3):
-            self.copies.append((O.perturb(rp, M, symmetric=sym),
-                                O.perturb(rp, B, symmetric=sym),
-                                O.perturb(rp, K, symmetric=sym),
-                                O.perturb(rp, F), O.perturb(rp, self.freq)))
+            Mp, Bp, Kp = (O.perturb(rp, X, symmetric=sym) for X in (M, B, K))
+            if dense:
+                # coupled blocks are solved by dense factorisations (LU without
+                # equilibration, eigensolvers) whose backward error is small relative to
+                # the NORM of the block, not relative to each entry or each row: a badly
+                # row-scaled 2x2 block loses eps*cond(H) in scipy.linalg.solve
+                Mp, Bp, Kp = (O.perturb_normwise(rp, X, blocks, scale="global")
+                              for X in (Mp, Bp, Kp))
+            self.copies.append((Mp, Bp, Kp, O.perturb(rp, F), O.perturb(rp, self.freq)))
         self._cache = {}
         with np.errstate(all="ignore"):
             if pre_eig:
@@ -508,19 +531,15 @@ class Ref:
             except np.linalg.LinAlgError:
                 cps.append(tuple(np.full_like(d, np.inf) for _ in range(3)))
         sig = [O.spread(self.base[q], [c[q] for c in cps]) for q in range(3)]
-        # modal-route sensitivity for SolveUnc's coupled path (elastic block only)
-        self.sig_modal = None
+        # round-off model of SolveUnc's coupled (complex-mode) route, elastic block only
+        self.modal_bound = None
         el = self.el
         if el.size and not s_is_diag(np, self.s):
             ix = np.ix_(el, el)
-            try:
-                y0 = O.modal_superposition(M[ix], B[ix], K[ix], self.F[el], self.freq)
-                ys = [O.modal_superposition(Mp[ix], Bp[ix], Kp[ix], Fp[el], fp)
-                      for (Mp, Bp, Kp, Fp, fp) in self.copies]
-                sm = O.spread(y0, ys)
-            except np.linalg.LinAlgError:
-                sm = np.full((el.size, self.nf), np.inf)
-            self.sig_modal = sm
+            bnd, cU = O.modal_route_bound(M[ix], B[ix], K[ix], self.F[el], self.freq)
+            if not cU <= CONDU_LIMIT:
+                bnd = np.full(self.nf, np.inf)
+            self.modal_bound = MODAL_FACTOR * bnd
         self.T = {}
         for solver in ("su", "fd"):
             Ts, mask = [], np.ones((self.n, self.nf), bool)
@@ -530,10 +549,12 @@ class Ref:
                     if rows.size == 0:
                         continue
                     sg = sig[q][rows]
-                    if solver == "su" and name == "el" and self.sig_modal is not None:
-                        sg = np.maximum(sg, self.sig_modal * np.abs(self.W) ** q)
                     tol, amp, scale = O.column_tol(self.base[q][rows], sg)
                     bad = ~(amp <= AMP_LIMIT) | ~np.isfinite(tol)
+                    if solver == "su" and name == "el" and self.modal_bound is not None:
+                        extra = self.modal_bound * np.abs(self.W) ** q
+                        tol = tol + extra
+                        bad |= ~(extra <= SU_RELTOL_LIMIT * scale) | ~np.isfinite(tol)
                     T[rows] = np.where(bad, 0.0, tol)[None, :]
                     mask[np.ix_(rows, np.nonzero(bad)[0])] = False
                 Ts.append(T)
@@ -551,26 +572,21 @@ class Ref:
                     O.all_included_pre_eig(Mp, Bp, Kp, Fp, fp, self.rb, self.rf))
             except np.linalg.LinAlgError:
                 self.modal_copies.append(None)
-        # modal-route sensitivity on the modal elastic block, mapped through |phi|
+        # round-off model of the complex-mode route on the modal elastic block, mapped to
+        # physical rows through |phi|
         phi, w = self.modal[0], self.modal[4]["w"]
         el = self.el
-        self.sig_modal_phys = np.zeros((self.n, self.nf))
+        self.modal_bound_phys = np.zeros((self.n, self.nf))
         if el.size:
             Bm = (phi.conj().T @ O.full(B, self.n) @ phi)[np.ix_(el, el)]
             Km = np.diag(w[el]).astype(complex)
             Fm = (phi.conj().T @ self.F.astype(complex))[el]
-            rp = core.rng(7, "C02", "modalpert", self.s["i"])
-            try:
-                y0 = O.modal_superposition(None, Bm, Km, Fm, self.freq)
-                ys = [O.modal_superposition(None, O.perturb(rp, Bm), O.perturb(rp, Km),
-                                            O.perturb(rp, Fm), O.perturb(rp, self.freq))
-                      for _ in range(3)]
-                sm = O.spread(y0, ys)
-            except np.linalg.LinAlgError:
-                sm = np.full((el.size, self.nf), np.inf)
+            bnd, cU = O.modal_route_bound(None, Bm, Km, Fm, self.freq)
+            if not cU <= CONDU_LIMIT:
+                bnd = np.full(self.nf, np.inf)
             with np.errstate(invalid="ignore"):
-                self.sig_modal_phys = np.abs(phi[:, el]) @ np.where(np.isfinite(sm), sm,
-                                                                    1e300)
+                self.modal_bound_phys = MODAL_FACTOR * np.outer(
+                    np.abs(phi[:, el]).sum(axis=1), np.where(np.isfinite(bnd), bnd, 1e300))
 
     # -- per option set --------------------------------------------------------------------
     def want(self, incrb, rfdo):
@@ -598,10 +614,11 @@ class Ref:
                 Tfd = []
                 for q in range(3):
                     sg = O.spread(out[q], [c[q] for c in cps])
-                    tol_fd, amp_fd, _ = O.column_tol(out[q], sg)
-                    sg = np.maximum(sg, self.sig_modal_phys * np.abs(self.W) ** q)
-                    tol, amp, scale = O.column_tol(out[q], sg)
-                    bad = ~(amp <= AMP_LIMIT) | ~np.isfinite(tol)
+                    tol_fd, amp, scale = O.column_tol(out[q], sg)
+                    extra = self.modal_bound_phys.max(axis=0) * np.abs(self.W) ** q
+                    tol = tol_fd + extra
+                    bad = ~(amp <= AMP_LIMIT) | ~np.isfinite(tol) \
+                        | ~(extra <= SU_RELTOL_LIMIT * scale)
                     Ts.append(np.broadcast_to(np.where(bad, 0.0, tol)[None, :],
                                               (self.n, self.nf)).copy())
                     Tfd.append(np.broadcast_to(
@@ -649,6 +666,61 @@ def judge(sh, np, ref, sol, solver, incrb, rfdo, case, tags, cols=None):
         if g.shape != wd.shape:
             sh.violation("shape", case, {"got": g.shape, "want": wd.shape}, tags)
             return False
+    if tags.get("finding_cell"):
+        with _FindingCell(sh, tags["finding_cell"]):
+            return _judge(sh, np, ref, got, (wd, wv, wa), Ts, mask, W, F, solver, incrb,
+                          rfdo, case, tags)
+    return _judge(sh, np, ref, got, (wd, wv, wa), Ts, mask, W, F, solver, incrb, rfdo,
+                  case, tags)
+
+
+class _FindingCell:
+    """Cells where an OPEN finding (findings/C02.json) is expected to fire: keep at most
+    a few violation records per cell and shard (core.Shard keeps 200 records in total and
+    a new violation must never be crowded out), and keep their error ratios out of the
+    margins reported for the healthy cells."""
+    KEEP = 4
+
+    def __init__(self, sh, cell):
+        self.sh, self.cell = sh, cell
+
+    def __enter__(self):
+        sh = self.sh
+        self.saved_margin = dict(sh.margin)
+        self.orig = sh.violation
+        cell = self.cell
+
+        def limited(kind, case, detail, tags=None):
+            key = "known-cell-violations:" + cell
+            if sh.counters.get(key, 0) >= self.KEEP and kind in FINDING_KINDS:
+                sh.count(key)
+                sh.count("violation:" + kind)
+                return
+            sh.count(key)
+            self.orig(kind, case, detail, tags)
+        sh.violation = limited
+        return self
+
+    def __exit__(self, *exc):
+        sh = self.sh
+        sh.violation = self.orig
+        for k, v in list(sh.margin.items()):
+            old = self.saved_margin.get(k, -1.0)
+            if v > old:
+                sh.margin["known-cell:" + k] = max(sh.margin.get("known-cell:" + k, -1.0), v)
+                if k in self.saved_margin:
+                    sh.margin[k] = old
+                else:
+                    del sh.margin[k]
+        return False
+
+
+FINDING_KINDS = {"su-oracle-d", "su-oracle-v", "su-oracle-a", "residual-dyn", "v-eq-iWd",
+                 "a-eq-mW2d", "partition-rb", "partition-rf"}
+
+
+def _judge(sh, np, ref, got, want, Ts, mask, W, F, solver, incrb, rfdo, case, tags):
+    wd, wv, wa = want
     accepted = int(mask.all(axis=0).sum())
     ok = True
     for q, (name, w) in enumerate((("d", wd), ("v", wv), ("a", wa))):
@@ -813,6 +885,9 @@ def _tags(np, s, solver, pre_eig, incrb, rfdo, freq):
                   "k_hermitian_complex": s["cvar"] == "k-hermitian",
                   "m_hermitian_complex": s["cvar"] == "m-hermitian",
                   "k_complex_symmetric": s["cvar"] == "k-csym"})
+        if pre_eig and solver == "su" and s["cvar"] in ("k-hermitian", "m-hermitian",
+                                                        "k-csym"):
+            t["finding_cell"] = "pre_eig-" + s["cvar"]
     return t
 
 
@@ -855,13 +930,21 @@ def _build(sh, ode, cls, s, case, tags, **kw):
         return None
 
 
-def _fsolve(sh, obj, F, freq, incrb, rfdo, case, tags, where):
+def _fsolve(sh, obj, F, freq, incrb, rfdo, case, tags, where, singular_ok=False):
+    """fsolve with every exception turned into a violation.  singular_ok: the oracle
+    found an exactly singular / refused column in this call (undamped resonance hit
+    exactly); a LinAlgError is then the legitimate outcome and "singular" is returned."""
     import numpy as np
     try:
         with warnings.catch_warnings():
             warnings.simplefilter("ignore")
             with np.errstate(all="ignore"):
                 return obj.fsolve(F.copy(), freq.copy(), incrb=incrb, rf_disp_only=rfdo)
+    except np.linalg.LinAlgError as e:
+        if singular_ok:
+            return "singular"
+        sh.violation("exception:" + where, case, {"exc": repr(e)[:400]}, tags)
+        return None
     except Exception as e:
         sh.violation("exception:" + where, case, {"exc": repr(e)[:400]}, tags)
         return None
@@ -873,7 +956,7 @@ def _su_path(su):
     return "coup-real" if su.systype is float else "coup-complex"
 
 
-def _partition_check(sh, np, obj, s, case, tags, pre_eig=False):
+def _partition_check(sh, np, obj, s, case, tags):
     """The solver's own rb/el/rf index sets against the generated ones (discrete)."""
     def asidx(pv):
         if isinstance(pv, slice):
@@ -898,7 +981,7 @@ def run_block_case(sh, np, ode, i, tier):
     su = _build(sh, ode, "su", s, case0, base_tags)
     fd = _build(sh, ode, "fd", s, case0, base_tags)
     sh.count("kind:" + s["kind"])
-    sh.count("layout:" + s["layout"])
+    sh.count("layout:" + ("split-rb" if s["layout"].startswith("split") else s["layout"]))
     sh.count("mform:" + s["mform"])
     sh.count("rbform:" + s["rbform"])
     sh.count("force:" + fkind)
@@ -960,11 +1043,23 @@ def run_block_case(sh, np, ode, i, tier):
             Fq, fq = (F, freq) if cols is None else (F[:, cols], freq[cols])
             if fq.size == 0:
                 continue
-            sol = _fsolve(sh, obj, Fq, fq, incrb, rfdo, case, tags, solver + ".fsolve")
-            if sol is None:
-                continue
             _, mask = ref.tol(solver, key, rfdo)
             m = mask if cols is None else mask[:, cols]
+            colok = m.all(axis=0)
+            sol = _fsolve(sh, obj, Fq, fq, incrb, rfdo, case, tags, solver + ".fsolve",
+                          singular_ok=not colok.all())
+            if isinstance(sol, str):
+                # LinAlgError at a frequency the oracle refuses: redo without those
+                sh.count("cell:linalgerror-at-refused-frequency")
+                keep = np.nonzero(colok)[0]
+                cols = keep if cols is None else cols[keep]
+                Fq, fq = F[:, cols], freq[cols]
+                if fq.size == 0:
+                    continue
+                sol = _fsolve(sh, obj, Fq, fq, incrb, rfdo, case, tags, solver + ".fsolve")
+                m = mask[:, cols]
+            if sol is None:
+                continue
             sh.case([s["fam"], i, solver, key, rfdo], bool(np.any(F) and m.all(axis=0).any()),
                     sample=case)
             if not m.all(axis=0).any():
@@ -982,11 +1077,11 @@ def run_block_case(sh, np, ode, i, tier):
             if not np.array_equal(np.asarray(sol.f), fq):
                 sh.violation("sol.f", case, {"got": sol.f, "want": fq}, tags)
             judge(sh, np, ref, sol, solver, key, rfdo, case, tags, cols)
-            sols[solver] = sol
-        if "su" in sols and "fd" in sols:
+            sols[solver] = (sol, cols)
+        if "su" in sols and "fd" in sols and sols["su"][1] is None:
             tags = _tags(np, s, "su+fd", False, key, rfdo, freq)
-            cross(sh, np, ref, sols["su"], sols["fd"], key, rfdo,
-                  _case(s, "su+fd", False, incrb, rfdo), tags, fd_cols)
+            cross(sh, np, ref, sols["su"][0], sols["fd"][0], key, rfdo,
+                  _case(s, "su+fd", False, incrb, rfdo), tags, sols["fd"][1])
     return s, su if su_ok else None, fd
 
 
@@ -1012,7 +1107,10 @@ def run_phys_case(sh, np, ode, i, tier):
         if not su.pre_eig:
             sh.violation("pre_eig-not-done", case0, {}, tags0)
         sh.count("path:pre_eig-" + _su_path(su))
-        if not csym:
+        if tags0.get("finding_cell") and not csym:
+            with _FindingCell(sh, tags0["finding_cell"]):
+                _partition_check(sh, np, su, s, case0, tags0)
+        elif not csym:
             _partition_check(sh, np, su, s, case0, tags0)
         es = getattr(su.pc, "eig_success", True) if su.pc is not None else True
         if not es and not su.unc:
@@ -1020,8 +1118,9 @@ def run_phys_case(sh, np, ode, i, tier):
             su = None
     opts = _option_sets(r, tier, i)
     if csym:
-        opts = [("dva", False), ("dva", True)] if s["nrb"] == 0 else []
         opts = [("dva", False), ("avd", True)]
+    elif tags0.get("finding_cell"):
+        opts = [opts[q] for q in (0, 5, 10, 15)]
     su_dva = None
     for (incrb, rfdo) in opts:
         key = "".join(sorted(incrb))
@@ -1245,8 +1344,7 @@ def run_oneoffs(sh, np, ode, params):
         else:
             sh.violation("cdforce-notimplemented", case, {"note": "returned"}, {})
     # deprecated integer incrb
-    s = gen_block(sh.seed, 8 * 4 * 0 + 0 + 4 * 8 * params["slice"] % 64)
-    s = gen_block(sh.seed, 32 * params["slice"])       # all-present pattern, diag-real
+    s = gen_block(sh.seed, 192 * params["slice"])      # rb+el+rf present, diag-real
     rr = core.rng(sh.seed, "C02", "oneoff-int", params["slice"])
     freq, F, _ = gen_freq_force(np, rr, s, allow_zero=False)
     ref = Ref(s, F, freq, (sh.seed, "C02", "oneoff-pert", params["slice"]))
@@ -1290,13 +1388,16 @@ def run_shard(sh, params):
     tier = sh.tier
     sl, ns = params["slice"], params["nslice"]
     run_oneoffs(sh, np, ode, params)
-    for i in range(sl, NBLOCK[tier], ns):
+    # contiguous chunks: the generators stratify on i % 4, (i // 4) % 8, ... and a
+    # strided split would confine a shard to one residue class
+    nb, nph = NBLOCK[tier] // ns, NPHYS[tier] // ns
+    for i in range(sl * nb, (sl + 1) * nb):
         s, su, fd = run_block_case(sh, np, ode, i, tier)
-        if (i // ns) % 3 == 0:
+        if i % 3 == 0:
             run_psd_case(sh, np, ode, s, [("su", su, False), ("fd", fd, False)], i, "block")
-    for i in range(sl, NPHYS[tier], ns):
+    for i in range(sl * nph, (sl + 1) * nph):
         s, su = run_phys_case(sh, np, ode, i, tier)
-        if (i // ns) % 3 == 0 and su is not None and s["cvar"] in ("real", "b-complex"):
+        if i % 3 == 0 and su is not None and s["cvar"] in ("real", "b-complex"):
             run_psd_case(sh, np, ode, s, [("su", su, True)], i, "phys")
 
 
@@ -1309,8 +1410,9 @@ MANDATORY_MON = [
     "int-incrb-futurewarning", "bad-incrb"]
 MANDATORY_CELLS = (
     ["kind:" + k for k in KINDS]
-    + ["layout:contig-" + o for o in BLOCK_ORDERS] + ["layout:interleaved"]
-    + ["incrb:" + (k or "none") for k in INCRB]
+    + ["layout:contig-" + o for o in BLOCK_ORDERS] + ["layout:interleaved",
+                                                       "layout:split-rb"]
+    + ["incrb:" + ("".join(sorted(k)) or "none") for k in INCRB]
     + ["rf_disp_only:True", "rf_disp_only:False"]
     + ["mform:none", "mform:1d", "mform:2d"]
     + ["rbform:auto", "rbform:bool", "rbform:list", "rbform:index", "rbform:empty-list"]
